@@ -58,6 +58,12 @@ def run(path, rlimit=None, multiple_errors=6, extra=None, timeout=900):
             continue
         prim = None
         labels = []
+        def outer(sp):
+            # a span inside a macro expansion: report the outermost call site in the composed file
+            while sp.get("expansion") and sp["expansion"].get("span"):
+                sp = sp["expansion"]["span"]
+            return sp
+        d["spans"] = [dict(outer(sp), label=sp.get("label"), is_primary=sp.get("is_primary")) for sp in d.get("spans", [])]
         for sp in d.get("spans", []):
             if sp.get("label"):
                 labels.append(sp["label"])
